@@ -85,13 +85,13 @@ manifest = {
         "guard": "cargo feature `verif` on foyer-storage",
         "enable": "the harness depends on /repo's crates by path with features [verif, test_utils]; foyer is bound to the explorer by [patch.crates-io] substitution of madsim-tokio (vrt) and parking_lot (plshim) in /verif/harness/Cargo.toml",
         "baseline_off_cmd": "cd /repo && (cargo nextest run --workspace --no-fail-fast --offline || cargo test --workspace --no-fail-fast --offline)",
-        "source_commits": ["0216a43"],
+        "source_commits": ["0216a43", "19f760c"],
         "add_only": True,
     },
     "engines": [
         {"name": "S", "path": "harness/checks/src/seq.rs", "serves_properties": ["C05", "C13", "C14", "C16", "C17", "C18"], "kind_free_text": "exhaustive operation sequences + explicit-state BFS on the real in-memory cache, lock-step with a reference ledger / reference algorithms"},
         {"name": "V", "path": "harness/checks/src/hyb.rs", "serves_properties": ["C01", "C06", "C07", "C09", "C10", "C11", "C12", "C15", "C17"], "kind_free_text": "deviation-bounded stateless exploration of the real hybrid cache: vrt (madsim-tokio substitute) owns task polling, simio owns device IO completion/failure, the client program owns call timing"},
-        {"name": "T", "path": "harness/checks/src/props_c02.rs + harness/plshim", "serves_properties": ["C02", "C16", "C18"], "kind_free_text": "preemption-bounded exploration of OS-thread interleavings: plshim (parking_lot substitute) turns every lock operation into a scheduling point of a cooperative scheduler"},
+        {"name": "T", "path": "harness/checks/src/props_c02.rs + harness/plshim", "serves_properties": ["C02", "C13", "C16", "C18"], "kind_free_text": "preemption-bounded exploration of OS-thread interleavings: plshim (parking_lot substitute) turns every lock operation into a scheduling point of a cooperative scheduler"},
         {"name": "F/K", "path": "harness/checks/src/props_c03.rs, props_c04.rs", "serves_properties": ["C03", "C04"], "kind_free_text": "fault / crash enumerators over images and IO logs produced by Engine V, evaluated by real recovery"},
         {"name": "core", "path": "harness/vcore", "serves_properties": sorted(done), "kind_free_text": "iterative deviation bounding, replay files, evidence, known findings, process sharding"},
     ],
